@@ -21,7 +21,8 @@ BOUNDS = {
 }
 NOT_COVERED = ["bins naming several genes ('G1,G2'): outside the statement's precondition", "squash_genes' default summary (biweight location numerics, see C19): a mean is passed instead", "more than 2 named genes / 7 bins"]
 STUBS = []
-ASSUMPTIONS = ["bins are sorted; weights are positive (CNVkit weights lie in (0, 1])"]
+ASSUMPTIONS = [  # zero weights: see the zero_weight configurations of genemetrics
+"bins are sorted; weights are positive (CNVkit weights lie in (0, 1])"]
 
 POOL = ["G1", "G2", "Antitarget", "-", "CGH"]
 IGNORED = ("-", ".", "CGH", "Antitarget", "Background")
@@ -63,7 +64,7 @@ def expected_groups(chroms, names):
     return out
 
 
-def sym_bins(ctx, chroms, names, depth=True, depth_lo=0.01):
+def sym_bins(ctx, chroms, names, depth=True, depth_lo=0.01, weight_lo=0.001):
     n = len(chroms)
     cols = {"chromosome": chroms, "start": [], "end": [], "gene": names, "log2": [], "weight": []}
     if depth:
@@ -79,7 +80,7 @@ def sym_bins(ctx, chroms, names, depth=True, depth_lo=0.01):
         cols["start"].append(s)
         cols["end"].append(e)
         cols["log2"].append(ctx.real(f"l{i}", -30, 10))
-        cols["weight"].append(ctx.real(f"w{i}", 0.001, 1))
+        cols["weight"].append(ctx.real(f"w{i}", weight_lo, 1))
         if depth:
             cols["depth"].append(ctx.real(f"d{i}", depth_lo, 1000))
     return cols
@@ -110,14 +111,19 @@ def h_by_gene(ctx, chroms, first, filtered=False):
     ctx.cover("two genes adjacent", any(a[0] in ("G1", "G2") and b[0] in ("G1", "G2") for a, b in zip(got[:-1], got[1:])))
 
 
-def h_genemetrics(ctx, chroms, first, min_probes, skip_low, sex=(False, True), zero_depth=False):
+def h_genemetrics(ctx, chroms, first, min_probes, skip_low, sex=(False, True), zero_depth=False, zero_weight=False):
     """sex = (male reference, female sample): the sex adjustment options.  chrX bins are first
     brought to the autosomal level for the sample's sex (shift_xx, C15); everything else is then
     decided on the shifted values."""
     names = layout(ctx, chroms, first)
-    cols = sym_bins(ctx, chroms, names, depth_lo=0 if zero_depth else 0.01)
+    cols = sym_bins(ctx, chroms, names, depth_lo=0 if zero_depth else 0.01, weight_lo=0 if zero_weight else 0.001)
     thr = ctx.real("thr", 0, 5)
     cna = make_cna(cols)
+    if zero_weight:
+        # single bins may weigh nothing, a whole gene may not (its weighted mean would be undefined)
+        for g, idx in expected_groups(chroms, names):
+            if g != "Antitarget":
+                ctx.assume(Sum([cols["weight"][i] for i in idx]) > 0)
     hapx, female = sex
     level = (1 if female else 0) if hapx else (0 if female else -1)
     raw = cols["log2"]
@@ -139,6 +145,10 @@ def h_genemetrics(ctx, chroms, first, min_probes, skip_low, sex=(False, True), z
             use = [i for i in idx if not bool(Or(cols["log2"][i] < low, cols["depth"][i] == 0))]
         else:
             use = idx
+        if use and zero_weight and bool(Sum([cols["weight"][i] for i in use]) == 0):
+            continue  # every weight zero: the weighted mean is undefined, outside the claim
+        if use and zero_weight:
+            ctx.cover("zero-weight bin in a gene", Or(*[cols["weight"][i] == 0 for i in use]))
         if use:
             W = Sum([cols["weight"][i] for i in use])
             mean = Sum([cols["weight"][i] * cols["log2"][i] for i in use]) / W
@@ -308,8 +318,9 @@ HARNESSES = [
         h_genemetrics,
         _cfgs([ONE4], [ONE5, ["chr1"] * 2 + ["chr2"] * 2], [{"min_probes": 1, "skip_low": False}, {"min_probes": 2, "skip_low": True}, {"min_probes": 3, "skip_low": False, "_t": True}])
         + [dict(c, zero_depth=True) for c in _cfgs([["chr1"] * 3], [ONE4], [{"min_probes": 1, "skip_low": True}]) if c["first"][0] in ("G1", "Antitarget")]
+        + [dict(c, zero_weight=True) for c in _cfgs([["chr1"] * 3], [ONE4], [{"min_probes": 1, "skip_low": False}]) if c["first"][0] in ("G1", "Antitarget")]
         + _cfgs([["chr1", "chrX", "chrX"]], [["chr1", "chr1", "chrX", "chrX"]], [{"min_probes": 1, "skip_low": False, "sex": (False, False)}, {"min_probes": 1, "skip_low": True, "sex": (True, True), "_t": True}, {"min_probes": 1, "skip_low": False, "sex": (True, False), "_t": True}]),
-        covers=["gene reported", "gene not reported", "low bin skipped", "zero-depth bin skipped"],
+        covers=["gene reported", "gene not reported", "low bin skipped", "zero-depth bin skipped", "zero-weight bin in a gene"],
         wall_s=240,
         thorough_wall_s=1500,
     ),
